@@ -57,6 +57,8 @@ CHECKS = {
    text="ILP (goodput goal): for every instance of the bounded family the optimum of the captured model (z3.Optimize over the translated constraints) must equal the optimum of an independent SMT reference of 'feasible plan', and the plan Gurobi returned must attain it; instances where only the exact per-instant reference is higher are the documented conservativeness of the ILP capacity row (known finding). "
         "TetriSched-Gurobi/CPLEX: over every solution whose objective equals the optimum z3 proves that no offered unplaced task can be added at any allowed (slot, worker, strategy) within capacity/release/deadline; the returned plan is re-checked concretely.",
    technique="differential SMT optimisation: captured MIP model vs independent reference; all-optimal-solutions maximality queries"),
+ "C15": sim("The real ClockworkScheduler object lives across all schedule() calls of whole simulated runs (2-4 requests over 1-2 models, batch sizes {1,2} in both orders, symbolic runtimes/releases/deadlines, models pre-loaded by the harness, both goals); "
+            "every returned Placements object is judged by z3 against the monitor's ledger: one model per batch, size == batch_size, model loaded and strategy fits, now + runtime <= every deadline, no request placed twice, cancel <=> hopeless.", "3/C15"),
  "C16": dict(level="model_checking", design="3/C16",
    text="All feasible paths of the real EventTime operators and EventQueue methods are enumerated with symbolic integer operands "
         "(every unit combination, |value| < 2^53 us) and symbolic event times/types; each algebraic law and each pop-is-minimum obligation "
